@@ -9,3 +9,5 @@ import "unsafe"
 func verifTrackArray(unsafe.Pointer, int) {}
 
 func verifCheckSliceHeader(*sliceHeader) {}
+
+func verifTakeSliceHeader(*sliceHeader) {}
